@@ -153,7 +153,11 @@ func (c *Client) handlePacket(pktx pkts.Packet) error {
 		// I suppose the right reaction is to reject the registratin with
 		// `Rejected: invalid topic ID`.
 		var returnCode pkts1.ReturnCode
-		if _, ok := c.registeredTopics[string(pkt.TopicName)]; ok {
+		if topicID, ok := c.registeredTopics[string(pkt.TopicName)]; ok && topicID == pkt.TopicID {
+			// The very same registration again: the gateway has not
+			// received our REGACK and resends REGISTER.
+			returnCode = pkts1.RC_ACCEPTED
+		} else if ok {
 			returnCode = pkts1.RC_INVALID_TOPIC_ID
 		} else {
 			returnCode = pkts1.RC_ACCEPTED
